@@ -316,6 +316,15 @@ class PEmitter:
             return any(self.has_exit(x) for x in node)
         return False
 
+    def has_loop_exit(self, node):
+        if isinstance(node, tuple):
+            if node and node[0] in ("break", "continue"):
+                return True
+            return any(self.has_loop_exit(x) for x in node)
+        if isinstance(node, list):
+            return any(self.has_loop_exit(x) for x in node)
+        return False
+
     def has_return(self, node):
         if isinstance(node, tuple):
             if node and node[0] in ("return", "try", "break", "continue"):
@@ -1159,6 +1168,16 @@ class PEmitter:
                 return self.expr(e, env, None)
             if e[0] == "while":
                 return self.while_stmt(e, env, rest)
+            if e[0] == "loop" and self.loop_vars is None and e[1][0] == "block" and e[1][1] and e[1][1][0][0] == "expr" \
+                    and e[1][1][0][1][0] == "if" and e[1][1][0][1][3] is None \
+                    and e[1][1][0][1][2] == ("block", [("expr", ("break",))], None) \
+                    and not self.has_loop_exit(("block", e[1][1][1:], e[1][2])):
+                # `loop { if !c { break; } body }` is `while c { body }`
+                c = e[1][1][0][1][1]
+                while c[0] == "paren":
+                    c = c[1]
+                c = c[2] if (c[0] == "un" and c[1] == "!") else ("un", "!", ("paren", c))
+                return self.while_stmt(("while", c, ("block", e[1][1][1:], e[1][2])), env, rest)
             if e[0] == "for":
                 return self.for_stmt(e, env, rest)
             if e[0] == "call" and e[1] == ("var", "gather_block") and len(e[2]) == 5:
